@@ -86,10 +86,25 @@ def mdInfo (m : Md) : List (String × Json) :=
        | "ok:changed" => Json.str "accepted"
        | other => Json.str other)
     | _, _ => Json.null
+  -- … and the Metablock wrapper: signing such content fails and attaches nothing (`Sign.sstep` after
+  -- `Sign.trySetFrac`; theorem `metablock_with_fraction_cannot_be_signed`)
+  let legacyRefusal : Json := match p with
+    | .link _ =>
+      let W : InToto.Verify.World :=
+        { now := 0, sigOK := fun _ _ _ => false, matClass := fun _ => L "nopem",
+          cert := fun _ => none, pemHasCert := fun _ => false,
+          exec := fun _ => { started := false, exit := -1, sets := [], dels := [] } }
+      let k : InToto.Verify.Key := ⟨L "00", L "ed25519", L "ed25519", L (String.join (List.replicate 32 "11")),
+        L (String.join (List.replicate 32 "22")), []⟩
+      let st0 : InToto.Sign.SState := { md := .legacy p (.list (some [])), valid := [], n := 0 }
+      let r := InToto.Sign.sstep W (InToto.Sign.trySetFrac st0).1 (.sign k)
+      Json.str (if r.2 == "err" then (if (InToto.Verify.sigsOf r.1.md).isEmpty then "refused-unsigned" else "refused-but-signature-added")
+                else "signed")
+    | _ => Json.null
   let signable : Json := match m with
     | .legacy pp _ => optStr (canonPayload pp)
     | _ => Json.null
-  [("signable", signable), ("refusal", refusal), ("valid", valid), ("unsigned_mb_reload", Json.str unsignedMb), ("unsigned_env_reload", Json.str unsignedEnv), ("res", "ok"), ("kind", kind), ("wrapper", wrapper), ("canon", optStr (canonPayload p)), ("sigs", sigs),
+  [("signable", signable), ("refusal", refusal), ("legacy_refusal", legacyRefusal), ("valid", valid), ("unsigned_mb_reload", Json.str unsignedMb), ("unsigned_env_reload", Json.str unsignedEnv), ("res", "ok"), ("kind", kind), ("wrapper", wrapper), ("canon", optStr (canonPayload p)), ("sigs", sigs),
    ("roundtrip", rt), ("dsse_payload", dssePayload), ("dsse_reload", dsseReload)]
 
 def handleMeta (op : String) (a : Json) : Option Json :=
